@@ -478,17 +478,27 @@ def rule_thresholds(ctx, primes):
     p = pushes[0]
     conds = conditions_to(fn["body"], p)
     strs = [fact_str(c) for c in conds]
-    flags = [c for c in conds if c[0] == "if" and not c[2] and c[1]["k"] == "Path"]
-    lt_used = any(s.replace(" ", "") == "!data.less_than.is_empty()" for s in strs)
+    # the suppression is either a mutable flag (`!is_positive`) or directly `!<bit sizes>.iter().any(..)`
+    flags = [c for c in conds if c[0] == "if" and not c[2] and (c[1]["k"] == "Path" or (strip(c[1])["k"] == "MethodCall" and strip(c[1])["method"] == "any"))]
+    # the record of the loop over the collected constraints: `for (input, data) in constraints`
+    data = "data"
+    for c in conds:
+        if c[0] == "loop" and c[1] == "for" and c[2] is not None and c[2]["k"] == "PTuple" and len(c[2]["elems"]) == 2:
+            data = render(c[2]["elems"][1]).replace("&", "").strip()
+    lt_fact = "!%s.less_than.is_empty()" % data
+    lt_used = any(s.replace(" ", "") == lt_fact for s in strs)
     ctx.check(R, "find_unconstrained_less_than/only-LessThan-inputs", lt_used, "path: %s" % strs, site(LT, p))
     if len(flags) != 1:
         return ctx.bad(R, "find_unconstrained_less_than/range-check-flag", "expected the report to be guarded by one boolean flag being false; path: %s" % strs, site(LT, p))
-    flag = flags[0][1]["path"]
-    extra = [s for c, s in zip(conds, strs) if c[0] not in ("loop",) and s.replace(" ", "") not in ("!data.less_than.is_empty()", "!" + flag)]
+    flag = flags[0][1]["path"] if flags[0][1]["k"] == "Path" else None
+    extra = [s for c, s in zip(conds, strs) if c[0] not in ("loop",) and s.replace(" ", "") != lt_fact and c is not flags[0]]
     ctx.check(R, "find_unconstrained_less_than/no-other-suppression", not extra, "other conditions: %s" % extra, site(LT, p))
     # where does the flag become true?  two shapes: a loop that sets it, or `iter().any(..)`
     env = param_env(LT, fn, [])
-    inits = [n for n in walk(fn["body"]) if n["k"] == "Local" and n["pat"]["k"] == "PIdent" and n["pat"]["name"] == flag]
+    if flag is None:
+        inits = [{"init": flags[0][1], "line": flags[0][1].get("line", 0)}]
+    else:
+        inits = [n for n in walk(fn["body"]) if n["k"] == "Local" and n["pat"]["k"] == "PIdent" and n["pat"]["name"] == flag]
     cases = []  # (collection text, element var, facts below the element, site)
     if len(inits) == 1 and render(strip(inits[0]["init"])) == "false":
         sets = [n for n in walk(fn["body"]) if n["k"] == "Assign" and render(n["l"]) == flag]
